@@ -255,6 +255,9 @@ def symbolic_comprehension(interp, e, fr, it, what):
         from .loops import VBag
         NodeIn = it.g['NodeIn']
         return VBag([Node], lambda a: NodeIn[a], lambda a: VNode(a), note='nodes')
+    if it.kind == 'seq' and g.ifs and what == 'list' and it.meta.get('elem_kind') == 'int' and isinstance(g.target, _ast.Name) \
+            and isinstance(e.elt, _ast.Name) and e.elt.id == g.target.id:
+        return filtered_int_seq(interp, fr, g, it)
     if it.kind != 'seq' or g.ifs:
         raise Undecided('comprehension over %s' % it.kind)
     ctx = interp.ctx
@@ -281,6 +284,46 @@ def symbolic_comprehension(interp, e, fr, it, what):
     ctx.assume(z3.ForAll([q], z3.Implies(indom(q), z3.And(inb(last(q), n), at(last(q))[0].z == q)), patterns=[indom(q)]), 'seq')
     ctx.assume(z3.ForAll([i], z3.Implies(inb(i, n), z3.And(indom(at(i)[0].z), i <= last(at(i)[0].z))), patterns=[at(i)[0].z]), 'seq')
     return VMap(lambda qq: indom(qq), lambda qq: at(last(qq))[1], {'n': n, 'key': lambda k: at(k)[0], 'val': lambda k: at(k)[1], 'last': last})
+
+
+def filtered_int_seq(interp, fr, g, it):
+    """[x for x in seq if cond(x)] over a sequence of ints: the subsequence of the elements that satisfy cond, in order.
+    new(k) = old(idx(k)) with idx strictly increasing into the old indices, cond holds for every kept element, and every old index
+    whose element satisfies cond is idx(inv(i)) for some new index inv(i)"""
+    ctx = interp.ctx
+    x0 = fresh('x0', Int)
+    saved = dict(fr.env)
+    interp.assign(g.target, VInt(x0), fr)
+    n_h, n_pc = len(ctx.hyps), len(ctx.pc)
+    ctx.solver.push()
+    try:
+        conds = []
+        for cnd in g.ifs:
+            t_ = interp.truth(interp.eval(cnd, fr))
+            conds.append(z3.BoolVal(t_) if isinstance(t_, bool) else t_)
+    finally:
+        ctx.solver.pop()
+        del ctx.hyps[n_h:]
+        del ctx.hyp_cats[n_h:]
+        del ctx.pc[n_pc:]
+    fr.env.clear()
+    fr.env.update(saved)
+    cond0 = z3.And(*conds)
+    cond = lambda x: z3.substitute(cond0, (x0, x))
+    old = lambda k: it.elem(k).z
+    m = fresh('flt.n', Int)
+    new = fresh_fun('flt.at', Int, Int)
+    idx = fresh_fun('flt.idx', Int, Int)
+    inv = fresh_fun('flt.inv', Int, Int)
+    k, k2, i = z3.Int('k?fl'), z3.Int('k2?fl'), z3.Int('i?fl')
+    ctx.assume(m >= 0, 'seq')
+    ctx.assume(z3.ForAll([k], z3.Implies(inb(k, m), z3.And(inb(idx(k), it.n), cond(old(idx(k))), new(k) == old(idx(k)))),
+                         patterns=[new(k)]), 'seq')
+    ctx.assume(z3.ForAll([k, k2], z3.Implies(z3.And(0 <= k, k < k2, k2 < m), idx(k) < idx(k2)),
+                         patterns=[z3.MultiPattern(idx(k), idx(k2))]), 'seq')
+    ctx.assume(z3.ForAll([i], z3.Implies(z3.And(inb(i, it.n), cond(old(i))), z3.And(inb(inv(i), m), idx(inv(i)) == i)),
+                         patterns=[old(i)]), 'seq')
+    return VSeq(m, lambda kk: VInt(new(kk)), {'elem_kind': 'int', 'filtered_from': it, 'idx': idx, 'inv': inv, 'f': new})
 
 
 def havoc_seq(v, name):
